@@ -310,6 +310,21 @@ def run_one(ck, prog):
             a = ctx.args(gd[0])
             whole = mentions(a[1], ctx.prov, lambda z: z[0] == "field" and z[2] == "filled_buf") and not mentions(a[1], ctx.prov, lambda z: z[0] == "call" and (z[1] or "").endswith("Index::index"))
             ck.ob("C14.6", "whole-buffer-to-getdents", whole, fn=nx[0]["path"], detail="getdents must receive the whole buffer")
+            # the buffer getdents fills must hold the largest record the kernel can produce: NAME_START + 255 name bytes + NUL, rounded up
+            # to the 8-byte record alignment - a smaller one makes getdents fail with EINVAL at the first such entry and the listing stops
+            import re as _re
+            rd = prog.adts.get("tiny_std::fs::ReadDir")
+            sizes = []
+            for v in (rd or {}).get("variants", []):
+                for f in v["fields"]:
+                    m = _re.fullmatch(r"\[u8; (.+)\]", f["ty"])
+                    if m and mentions(a[1], ctx.prov, lambda z, n=f["name"]: z[0] == "field" and z[2] == n):
+                        n = int(m.group(1)) if m.group(1).isdigit() else prog.const(m.group(1))
+                        sizes.append(n)
+            name_start = prog.const("rusl::platform::compat::dirent::Dirent::NAME_START") or prog.const("rusl::platform::compat::dirent::NAME_START") or 19
+            need = (name_start + 255 + 1 + 7) // 8 * 8
+            ck.ob("C14.6", "buffer-holds-the-longest-entry", len(sizes) == 1 and isinstance(sizes[0], int) and sizes[0] >= need, fn=nx[0]["path"],
+                  detail=f"the getdents buffer is {sizes} bytes; an entry with a 255-byte name needs {need} (header {name_start} + name + NUL, 8-aligned): with less, iteration fails at such an entry and never lists the rest")
         # end-of-directory is declared only on an empty read or an error: every `eod = true` and every `None` built before
         # the parse is dominated by get_dents == 0 / its Err edge / an already set eod
         is_gd = lambda z: z[0] == "call" and (z[1] or "").endswith("get_dents::get_dents")  # noqa: E731
@@ -386,6 +401,10 @@ def run_one(ck, prog):
         ctx = prog.ctx(w)
         wa = [bb for bb, t in ctx.cfg.calls(lambda t: (t.get("callee") or "").endswith("Write::write_all"))]
         ck.ob("C14.7", "write-uses-write_all", len(wa) == 1 and mentions(ctx.args(wa[0])[1], ctx.prov, lambda z: z[0] == "param" and z[1] == 2), fn=w["path"], detail="fs::write must deliver the caller's buffer with write_all (a single write may be short)")
+        for bb in wa:
+            res = ctx.cfg.term(bb).get("resolved") or ctx.cfg.term(bb).get("callee")
+            ck.ob("C14.7", "write-delivers-through-the-checked-loop", res == "tiny_std::io::Write::write_all", fn=w["path"], site=ctx.site(bb),
+                  detail=f"fs::write's write_all resolves to `{res}`: only the trait's provided loop (re-slice by the returned count until the buffer is empty, verified under C15) is known to deliver every byte - an override that trusts a single write leaves a prefix in the file on a short write")
     # kernel ABI of copy_file_range(fd_in, loff_t *off_in, fd_out, loff_t *off_out, len, flags): both offsets travel by pointer (or NULL)
     cfr = prog.fns.get("rusl::unistd::copy_file_range::copy_file_range")
     if ck.anchor("C14.7", "rusl copy_file_range", cfr):
